@@ -4,6 +4,8 @@ from __future__ import annotations
 import itertools
 import time
 
+from architecture_simulator.settings.settings import Settings
+
 from vf.adapt import rv, spy
 from vf.checks import alpha
 from vf.checks.c02 import templates
@@ -136,9 +138,18 @@ def sized_programs(seed):
                     ("jal", 0, 0, 0, 4 * (5 + pad))] + [("addi", 26, 26, 0, 1)] * pad + [("addi", r1, r1, 0, 1), ("jalr", 0, 27, 0, 0), ("addi", r2, r2, 0, 1), ("jalr", 0, 27, 0, 0),
                                                                                     ("addi", 24, 0, 0, 1)]
             out.append((f"call-loop-x{iters}-pad{pad}", prog))
+    # programs that fill the instruction memory up to (or nearly up to) its last word: the only executed instructions
+    # are a jump over the padding and the tail, so the last cache blocks touch the end of the address range
+    for short in (0, 1, 3):
+        n = IMEM_WORDS - short
+        tail = [("addi", r1, 0, 0, 7), ("addi", r2, r1, 0, 9), ("add", r3, r1, r2, 0)]
+        prog = [("jal", 0, 0, 0, 4 * (n - len(tail)))] + [("addi", 0, 0, 0, 0)] * (n - len(tail) - 1) + tail
+        out.append((f"full-memory-minus{short}", prog))
     return out
 
 
+_S = Settings().get()
+IMEM_WORDS = (_S["instruction_memory_max_bytes"] - _S["instruction_memory_min_bytes"]) // 4
 SIZED_EXTRA_CFGS = [(0, 1, 4, "plru", 2), (1, 0, 4, "plru", 1), (0, 0, 8, "plru", 0), (0, 1, 4, "lru", 2), (0, 0, 3, "lru", 1)]
 
 
@@ -197,7 +208,7 @@ def sized_shard(shard):
                             p.counters["fetch-stream-distinguishes-plru-from-lru"] += 1
                     for f, d in bad:
                         p.violation(dict(oracle="icache", field=f), case_of(prog, st["regs"], st["words"], cfg, mode, 400),
-                                    f"{name} [{rv.prog_text(prog)}] icache i{cfg[0]}b{cfg[1]}w{cfg[2]} {cfg[3]} pen={cfg[4]} {mode}: {d}", size=(len(prog), i, si, ci))
+                                    f"{name} [{rv.prog_text(prog) if len(prog) < 40 else rv.prog_text(prog[:3]) + f'; ... ({len(prog)} instructions) ...; ' + rv.prog_text(prog[-3:])}] icache i{cfg[0]}b{cfg[1]}w{cfg[2]} {cfg[3]} pen={cfg[4]} {mode}: {d}", size=(len(prog), i, si, ci))
     return p
 
 
